@@ -191,6 +191,56 @@ func c15PieceShapes(thorough bool) (wide, narrow []c15Shape) {
 	return wide, narrow
 }
 
+// c15PadShapes: padding and priority as an axis of the frame scripts.  DATA frames with the PADDED flag and
+// pad lengths 0, 1, 7, 255 that carry no data byte at all (also as the frame with END_STREAM), one data byte,
+// a whole message; HEADERS frames with PADDED and / or PRIORITY (alone and followed by CONTINUATION);
+// PRIORITY frames, PING and frames of an unknown type between the frames of a call.  The demanded traces are
+// those of the same calls without any of it.
+func c15PadShapes(thorough bool) []c15Shape {
+	var out []c15Shape
+	for _, k := range []int{0, 1, 7, 255} {
+		out = append(out, c15Shape{Named: true, NReq: 1, NResp: 1, Pad: k + 1, PadOnly: true})
+	}
+	out = append(out,
+		c15Shape{Named: true, NReq: 1, ReqEnd: 1, NResp: 1, Pad: 7 + 1, PadHdr: true},
+		c15Shape{Named: true, NReq: 2, NResp: 1, Pad: 1 + 1, PadOne: true},
+		c15Shape{Named: true, Cont: true, NReq: 1, NResp: 0, RespCont: true, Pad: 255 + 1, PadHdr: true, Prio: true},
+		c15Shape{Named: true, NReq: 1, NResp: 1, Prio: true, Extra: true},
+		c15Shape{Named: false, NReq: 1, NResp: 1, Pad: 0 + 1, PadOnly: true, PadHdr: true},
+	)
+	if thorough {
+		for _, k := range []int{0, 1, 7, 255} {
+			out = append(out,
+				c15Shape{Named: true, NReq: 1, ReqEnd: 1, NResp: 0, Pad: k + 1},
+				c15Shape{Named: true, NReq: 1, NResp: 1, Pad: k + 1, PadOne: true, PadHdr: true},
+				c15Shape{Named: true, NReq: 2, NResp: 2, Pad: k + 1, PadOnly: true, PadOne: true},
+				c15Shape{Named: true, NReq: 0, Resp: 1, RespCont: true, Pad: k + 1, PadHdr: true, Prio: true},
+				c15Shape{Named: true, Cont: true, ContN: 2, NReq: 1, NResp: 1, RespHdrCont: 1, Pad: k + 1, PadHdr: true},
+				c15Shape{Named: true, NReq: 1, NResp: 1, Pad: k + 1, PadOnly: true, PadHdr: true, Variant: "refused-retry"},
+				c15Shape{Named: true, NReq: 1, NResp: 1, Pad: k + 1, PadOnly: true, Variant: "rsts-mid"},
+				c15Shape{Named: true, NReq: 1, NResp: 1, Bidi: true, Pad: k + 1, PadOnly: true, Variant: "rstc-mid"},
+				c15Shape{Named: true, NReq: 2, ReqPieces: 3, NResp: 0, Pad: k + 1},
+			)
+		}
+		out = append(out,
+			c15Shape{Named: true, NReq: 1, NResp: 1, Pad: 7 + 1, PadOnly: true, PadHdr: true, Prio: true, Extra: true},
+			c15Shape{Named: true, NReq: 1, Extra: true, Variant: "rstc-early"},
+			c15Shape{Named: true, NReq: 1, NResp: 1, Extra: true, Variant: "refused-retry"},
+			c15Shape{Named: true, NReq: 1, LateData: true, Pad: 1 + 1, PadHdr: true, Variant: "rstc-late-hdr"},
+			c15Shape{Named: false, NReq: 1, NResp: 1, Prio: true, Extra: true},
+		)
+	}
+	return out
+}
+
+func c15PadPartners(thorough bool) []c15Shape {
+	out := []c15Shape{{Named: true, NReq: 1, NResp: 1}}
+	if thorough {
+		out = append(out, c15Shape{Named: true, NReq: 0, Resp: 1}, c15Shape{Named: false, NReq: 1, NResp: 1})
+	}
+	return out
+}
+
 func c15PiecePartners() []c15Shape {
 	return []c15Shape{
 		{Named: true, NReq: 1, NResp: 1},
@@ -414,6 +464,21 @@ func c15Pairs(thorough bool) []c15Pair {
 		}
 	}
 	endFamily()
+	// padding and priority: every pad shape with every pad partner (both orders); two padded calls together
+	pads := c15PadShapes(thorough)
+	for _, x := range pads {
+		for _, y := range c15PadPartners(thorough) {
+			add(x, y)
+			add(y, x)
+		}
+	}
+	add(pads[0], pads[3])
+	add(pads[4], pads[1])
+	if thorough {
+		add(pads[2], pads[5])
+		add(pads[7], pads[6])
+	}
+	endFamily()
 	// HPACK dynamic-table-size histories
 	for _, p := range c15TabPairs(thorough) {
 		addTab(p.A, p.B, p.Tab)
@@ -456,8 +521,10 @@ type c15Built struct {
 	a, b             []c15Item
 	wants            []c15Want
 	contReq, contR   bool
-	chainReq, chainR bool // a header block of >= 3 fragments in that direction
-	late             bool // response-direction frames arrive for a stream that is gone already
+	chainReq, chainR bool    // a header block of >= 3 fragments in that direction
+	late             bool    // response-direction frames arrive for a stream that is gone already
+	padded           [2]bool // per direction: PADDED frames
+	extra            [2]bool // per direction: PRIORITY / PING / unknown-type frames, HEADERS with PRIORITY
 	tab              c15Tab
 }
 
@@ -481,6 +548,8 @@ func c15Build(p c15Pair) *c15Built {
 	bt.chainReq, bt.chainR = r1 || r2, s1 || s2
 	for _, it := range append(append([]c15Item(nil), bt.a...), bt.b...) {
 		bt.late = bt.late || it.Late
+		bt.padded[it.Dir] = bt.padded[it.Dir] || it.Padded
+		bt.extra[it.Dir] = bt.extra[it.Dir] || it.Prio || it.Kind == 'Y' || it.Kind == 'X' || it.Kind == 'N'
 	}
 	return bt
 }
@@ -516,6 +585,16 @@ func c15AttrVerdicts(res *c15Result, bt *c15Built, st c15TabStats) []c15Verdict 
 			return append(out, c15Verdict{"gave-up-after-table-size-update", fmt.Sprintf(
 				"the frame tracer gave up (request direction=%v, response direction=%v) on well-formed traffic in which header blocks start with HPACK dynamic-table-size updates (RFC 7541 section 6.3; blocks with an update: request direction %d, of them to more than 4096 bytes %d; response direction %d, of them to more than 4096 bytes %d; every size is within what the receiver's SETTINGS_HEADER_TABLE_SIZE allows); table-size history %s; %d trace(s) delivered",
 				res.BrokenReq, res.BrokenResp, st.Updates[0], st.UpdatesAbove[0], st.Updates[1], st.UpdatesAbove[1], bt.tab, len(res.Traces))})
+		}
+		if (res.BrokenReq && bt.padded[c15DirReq]) || (res.BrokenResp && bt.padded[c15DirResp]) {
+			return append(out, c15Verdict{"gave-up-after-padded-frame", fmt.Sprintf(
+				"the frame tracer gave up (request direction=%v, response direction=%v) on well-formed traffic in which DATA / HEADERS frames carry the PADDED flag (RFC 9113 sections 6.1, 6.2: a pad-length byte, then the data or header block fragment, then that many zero bytes; pad length 0 and frames with no data byte at all are legal); %d trace(s) delivered",
+				res.BrokenReq, res.BrokenResp, len(res.Traces))})
+		}
+		if (res.BrokenReq && bt.extra[c15DirReq]) || (res.BrokenResp && bt.extra[c15DirResp]) {
+			return append(out, c15Verdict{"gave-up-after-priority-or-unknown-frame", fmt.Sprintf(
+				"the frame tracer gave up (request direction=%v, response direction=%v) on well-formed traffic that contains HEADERS with the PRIORITY flag, PRIORITY frames, PING or frames of a type the protocol does not define (which must be ignored, RFC 9113 section 4.1); %d trace(s) delivered",
+				res.BrokenReq, res.BrokenResp, len(res.Traces))})
 		}
 		if res.BrokenResp && !res.BrokenReq && bt.late {
 			return append(out, c15Verdict{"gave-up-after-late-frames", fmt.Sprintf(
